@@ -36,8 +36,19 @@ mod private {
             let offset = stream.tell();
             let mut serializer = Serializer::new(BlockCheck::Crc32);
             self.serialize_tail(&mut serializer)?;
-            let size = stream.write_serializer(serializer)?.into();
-            Ok(SizedOffset { size, offset })
+            let size: usize = stream.write_serializer(serializer)?;
+            // A SizedOffset stores the size of the tail on 16 bits.
+            if size > 0xFFFF {
+                return Err(std::io::Error::new(
+                    std::io::ErrorKind::InvalidInput,
+                    format!("Tail is too big ({size} bytes) to be referenced by a SizedOffset"),
+                )
+                .into());
+            }
+            Ok(SizedOffset {
+                size: size.into(),
+                offset,
+            })
         }
     }
 
